@@ -25,6 +25,11 @@ from harness import powermanager2 as P2
 
 BATS = [11, 12]
 QUIESCE = 0.001
+REJECT = ("ValueError", "PVPoolError", "EVChargerPoolError")   # documented argument rejections
+
+
+def pool_ids(case):
+    return sorted(BATS) if case.get("kind", "battery") == "battery" else [21, 22]
 
 
 async def _drive(case):
@@ -38,10 +43,11 @@ async def _drive(case):
     from frequenz.sdk.timeseries.battery_pool import BatteryPool
     from frequenz.sdk.timeseries.battery_pool._battery_pool_reference_store import BatteryPoolReferenceStore
 
-    W = Power.from_watts
+    M.set_scale(case)
+    W = lambda x: Power.from_watts(x * M.SCALE)
     loop = asyncio.get_running_loop()
     base_ts = datetime.now(tz=timezone.utc)
-    ids = frozenset(BATS)
+    ids = frozenset(BATS) if case.get("kind", "battery") == "battery" else frozenset({21, 22})
     comps = {Component(1, ComponentCategory.GRID), Component(2, ComponentCategory.METER)}
     conns = {Connection(1, 2)}
     for b in BATS:
@@ -56,13 +62,30 @@ async def _drive(case):
         actor = P1._mk_actor_cls()(proposals.new_receiver(limit=5000), subs.new_receiver(limit=5000), reqs.new_sender(),
                                    results.new_receiver(limit=5000), registry, component_category=ComponentCategory.BATTERY)
         actor._verif_bounds = boundsch
-        store = BatteryPoolReferenceStore(
-            channel_registry=registry, resampler_subscription_sender=unused.new_sender(),
-            batteries_status_receiver=status.new_receiver(limit=1), power_manager_requests_sender=proposals.new_sender(),
-            power_manager_bounds_subscription_sender=subs.new_sender(), power_distribution_results_fetcher=results,
-            min_update_interval=timedelta(seconds=0.2), batteries_id=set(BATS))
-        pools = [BatteryPool(pool_ref_store=store, name=p["name"], priority=p["prio"], set_operating_point=p["op"])
-                 for p in case["pools"]]
+        kind = case.get("kind", "battery")
+        if kind == "battery":
+            store = BatteryPoolReferenceStore(
+                channel_registry=registry, resampler_subscription_sender=unused.new_sender(),
+                batteries_status_receiver=status.new_receiver(limit=1), power_manager_requests_sender=proposals.new_sender(),
+                power_manager_bounds_subscription_sender=subs.new_sender(), power_distribution_results_fetcher=results,
+                min_update_interval=timedelta(seconds=0.2), batteries_id=set(BATS))
+            pools = [BatteryPool(pool_ref_store=store, name=p["name"], priority=p["prio"], set_operating_point=p["op"])
+                     for p in case["pools"]]
+        else:
+            # PVPool / EVChargerPool: the real pool classes on a reference store reduced to what
+            # propose_power / power_status use (their own bounds trackers need a live API client; the
+            # manager's bounds come from the channel as for batteries)
+            from frequenz.sdk.timeseries.pv_pool import PVPool
+            from frequenz.sdk.timeseries.ev_charger_pool import EVChargerPool
+
+            async def _nostop():
+                return None
+            store = NS(channel_registry=registry, power_manager_requests_sender=proposals.new_sender(),
+                       power_manager_bounds_subs_sender=subs.new_sender(), power_distribution_results_fetcher=results,
+                       component_ids=ids, power_bounds_subs={}, stop=_nostop)
+            cls = PVPool if kind == "pv" else EVChargerPool
+            pools = [cls(pool_ref_store=store, name=p["name"], priority=p["prio"], set_operating_point=p["op"])
+                     for p in case["pools"]]
         req_buf: list = []
         rep_buf = [[] for _ in pools]
         tasks = []
@@ -71,11 +94,19 @@ async def _drive(case):
             async for m in rx:
                 buf.append(m)
         tasks.append(asyncio.create_task(pump(reqs.new_receiver(limit=5000), req_buf)))
+        ticks = []
+        orig_drop = actor._set_power_group.drop_old_proposals
+
+        def rec_drop(now):
+            ticks.append(now)
+            return orig_drop(now)
+        actor._set_power_group.drop_old_proposals = rec_drop
         actor.start()
         subscribed = [False] * len(pools)
         bsend = boundsch.new_sender()
         o = lambda x: None if x is None else W(x)
         log = []
+        log_ticks = []      # [index of the step during which the timer fired, its `now`]
         for e in case["script"]:
             err = None
             t_call = P1._units(loop.time())
@@ -98,9 +129,18 @@ async def _drive(case):
                     sb = M.mk_sys(e["sys"])
                     await bsend.send(SystemBounds(timestamp=base_ts, inclusion_bounds=sb.inclusion_bounds,
                                                   exclusion_bounds=sb.exclusion_bounds))
+                elif e["t"] == "sleep":
+                    await asyncio.sleep(e["dt"] / 8.0)
             except ValueError as exc:
                 err = "ValueError"
+            except Exception as exc:  # PVPoolError / EVChargerPoolError: documented rejections
+                if type(exc).__name__ not in ("PVPoolError", "EVChargerPoolError"):
+                    raise
+                err = type(exc).__name__
             await asyncio.sleep(QUIESCE)
+            for now in ticks:
+                log_ticks.append([len(log), P1._units(now)])
+            ticks.clear()
             rq = list(req_buf)
             req_buf.clear()
             reps = []
@@ -120,7 +160,7 @@ async def _drive(case):
         await asyncio.gather(*tasks, return_exceptions=True)
         await actor.stop()
         await store.stop()
-        return {"log": log, "sources": srcs}
+        return {"log": log, "sources": srcs, "ticks": log_ticks}
     finally:
         connection_manager._CONNECTION_MANAGER = old
 
@@ -139,6 +179,12 @@ def run_pools(case):
 def expected_proposal(case, e):
     """The proposal the documentation of the pool API says this call makes, or None (no proposal)."""
     pool = case["pools"][e["pool"]]
+    kind = case.get("kind", "battery")
+    if e["t"] == "power" and e["p"] is not None:
+        if kind == "pv" and e["p"] > 0:
+            return "PVPoolError"
+        if kind == "ev" and e["p"] < 0:
+            return "EVChargerPoolError"
     if e["t"] == "power":
         return {"op": pool["op"], "prio": pool["prio"], "pref": e["p"], "lo": e.get("lo"), "hi": e.get("hi")}
     if e["t"] == "charge":
@@ -160,7 +206,20 @@ def model_terms(case, obs):
     rank = {s: i for i, s in enumerate(sorted(srcs))}
     evs, exp = [], []
     subscribed = []
-    for e, x in zip(case["script"], obs["log"]):
+    ticks_at = {}
+    for i, now in obs.get("ticks", []):
+        ticks_at.setdefault(i, []).append(now)
+    times = [x["time"] for e, x in zip(case["script"], obs["log"]) if e["t"] in ("power", "charge", "discharge")]
+    for _, now in obs.get("ticks", []):
+        if any(abs((now - t) - 60 * P1.UNIT) <= 2 for t in times):
+            return None, None      # float subtraction at the exact expiry boundary is not modelled
+    for i, (e, x) in enumerate(zip(case["script"], obs["log"])):
+        if i in ticks_at:
+            # the timer fired while this step slept (consecutive sweeps coalesce: C11_tick_coalescing_sound)
+            evs.append(f"(PE (PTick {cZ(ticks_at[i][-1])}))")
+            exp.append("(None, None)")
+        if e["t"] == "sleep":
+            continue
         if e["t"] == "status":
             k = e["pool"]
             pool = case["pools"][k]
@@ -173,7 +232,7 @@ def model_terms(case, obs):
             evs.append(f"(PE (PBounds {M.c_sys(e['sys'])}))")
         else:
             p = expected_proposal(case, e)
-            if p == "ValueError":
+            if p in REJECT:
                 continue
             evs.append(f"(PE (PProp {'true' if p['op'] else 'false'} (mkP {cZ(p['prio'])} {cZ(rank[srcs[e['pool']]])} "
                        f"{copt(p['pref'])} {copt(p['lo'])} {copt(p['hi'])} {cZ(x['time'])})))")
@@ -225,7 +284,26 @@ def gen_case(rng):
             script.append({"t": "bounds", "sys": M.gen_sys(rng, allow_none=False)})
         else:
             script.append({"t": "status", "pool": k})
-    return {"pools": pools, "script": script}
+    case = {"pools": pools, "script": script}
+    # a third of the cases: PV or EV-charger pools (propose_power only, one sign allowed) and pauses around
+    # the maximum proposal age, so that proposals made through the pool API expire
+    r = rng.random()
+    if r < 0.34:
+        case["kind"] = rng.choice(["pv", "ev"])
+        sign = -1 if case["kind"] == "pv" else 1
+        for e in script:
+            if e["t"] in ("charge", "discharge"):
+                e["t"] = "power"
+            if e["t"] == "power" and e["p"] is not None and rng.random() < 0.9:
+                e["p"] = sign * abs(e["p"])
+    if r < 0.34 or rng.random() < 0.25:
+        k = 0
+        while k < len(script):
+            if script[k]["t"] in ("power", "charge", "discharge") and rng.random() < 0.4:
+                script.insert(k + 1, {"t": "sleep", "dt": rng.choice([8, 80, 240, 400, 479, 481, 500, 700])})
+                k += 1
+            k += 1
+    return M.gen_scale(rng, case) if rng.random() < 0.5 else case
 
 
 def boundary_cases():
@@ -241,6 +319,19 @@ def boundary_cases():
     ]
 
 
+def expiry_cases():
+    S = {"incl": [-100, 100], "excl": [0, 0]}
+    out = []
+    for kind, sign in (("battery", 1), ("pv", -1), ("ev", 1)):
+        # the curtailing high-priority pool goes silent for 80 s while the low-priority one keeps renewing
+        out.append({"kind": kind, "pools": [{"name": "hi", "prio": 3, "op": False}, {"name": "lo", "prio": 1, "op": False}],
+                    "script": [{"t": "status", "pool": 0}, {"t": "status", "pool": 1}, {"t": "bounds", "sys": S},
+                               {"t": "power", "pool": 0, "p": None, "lo": -10, "hi": 10}, {"t": "power", "pool": 1, "p": sign * 40},
+                               {"t": "sleep", "dt": 320}, {"t": "power", "pool": 1, "p": sign * 40}, {"t": "sleep", "dt": 320},
+                               {"t": "power", "pool": 1, "p": sign * 40}, {"t": "sleep", "dt": 560}, {"t": "bounds", "sys": S}]})
+    return out
+
+
 def shrink_case(case):
     sc = case["script"]
     for i in range(1, len(sc)):
@@ -254,7 +345,8 @@ class PoolApiStream(Stream):
 
     def gen(self, rng, tier):
         yield from boundary_cases()
-        for _ in range(250 if tier == "quick" else 4000):
+        yield from expiry_cases()
+        for _ in range(300 if tier == "quick" else 4000):
             yield gen_case(rng)
 
     def run_impl(self, case):
@@ -286,6 +378,11 @@ class PoolApiStream(Stream):
             out.append("shared_priority")
         if any(x["error"] for x in obs["log"]):
             out.append("ValueError_raised")
+        out.append("pool_kind=" + case.get("kind", "battery"))
+        if obs.get("ticks"):
+            out.append("timer_ticks")
+        if case.get("scale", 1) != 1:
+            out.append("fractional_or_scaled_watts")
         return out
 
     def oracle(self, case, obs):
@@ -293,19 +390,27 @@ class PoolApiStream(Stream):
         cur = None
         latest = {}      # pool index -> the proposal its latest call is documented to make
         only_regular = not any(p["op"] for p in case["pools"])
+        ticks_at = {}
+        for i, now in obs.get("ticks", []):
+            ticks_at.setdefault(i, []).append(now)
         for i, (e, x) in enumerate(zip(case["script"], obs["log"])):
+            # proposals older than the maximum age (60 s) at a sweep of the 1 s timer stop counting
+            for now in ticks_at.get(i, []):
+                for k in [k for k, q in latest.items() if now - q["t_us"] > 60 * P1.UNIT]:
+                    del latest[k]
             if e["t"] == "bounds":
                 cur = e["sys"]
             p = expected_proposal(case, e) if e["t"] in ("power", "charge", "discharge") else None
-            # documented argument check of propose_charge / propose_discharge
-            if p == "ValueError" and x["error"] != "ValueError":
-                out.append({"what": f"api: step {i} {e}: a negative charge/discharge power must raise ValueError", "finding": None})
-            if p not in (None, "ValueError") and x["error"] is not None:
+            # documented argument checks (negative charge/discharge power; charging a PV pool; discharging EV chargers)
+            if p in REJECT and x["error"] != p:
+                out.append({"what": f"api: step {i} {e}: the call must raise {p}, got {x['error']}", "finding": None})
+            if p not in (None,) + REJECT and x["error"] is not None:
                 out.append({"what": f"api: step {i} {e}: raised {x['error']}", "finding": None})
-            if p == "ValueError" and (x["request"] is not None):
+            if p in REJECT and (x["request"] is not None):
                 out.append({"what": f"api: step {i} {e}: a rejected call still produced a request", "finding": None})
-            if p not in (None, "ValueError"):
-                latest[e["pool"]] = {"prio": p["prio"], "src": obs["sources"][e["pool"]], "pref": p["pref"], "lo": p["lo"], "hi": p["hi"]}
+            if p not in (None,) + REJECT:
+                latest[e["pool"]] = {"prio": p["prio"], "src": obs["sources"][e["pool"]], "pref": p["pref"], "lo": p["lo"], "hi": p["hi"],
+                                     "t_us": x["time"]}
             r = x["request"]
             if r is None:
                 continue
@@ -317,15 +422,15 @@ class PoolApiStream(Stream):
                 if ok and r != exp:
                     out.append({"what": f"latest-call: step {i}: with the latest call of each pool {list(latest.values())} the closest admissible "
                                         f"value is {exp} W but {r} W is requested", "finding": None})
-            if x["request_ids"] != sorted(BATS):
-                out.append({"what": f"api: step {i}: request addresses {x['request_ids']}, the pool's batteries are {sorted(BATS)}", "finding": None})
+            if x["request_ids"] != pool_ids(case):
+                out.append({"what": f"api: step {i}: request addresses {x['request_ids']}, the pool's components are {pool_ids(case)}", "finding": None})
             if cur is not None and M.wf_sys(cur):
                 l, u = cur["incl"]
                 if not (l <= r <= u):
                     out.append({"what": f"bounds: step {i}: request {r} W outside the system inclusion bounds [{l}, {u}]", "finding": None})
             # single regular pool, no operating-point pool: the documented contract in its simplest form,
             # judged with the same independent `closest admissible value` oracle as the history stream
-            if len(case["pools"]) == 1 and not case["pools"][0]["op"] and cur is not None and M.wf_sys(cur) and p not in (None, "ValueError"):
+            if len(case["pools"]) == 1 and not case["pools"][0]["op"] and cur is not None and M.wf_sys(cur) and p not in (None,) + REJECT:
                 from harness import c04 as C04
                 exp, ok = C04.expected_target(cur, [{"prio": 1, "src": "a", "pref": p["pref"], "lo": p["lo"], "hi": p["hi"]}])
                 if ok and r != exp:
